@@ -151,6 +151,18 @@ func (v *vView) absPrefix() []byte {
 	return pre
 }
 
+// rootPrefix: the prefix the keys of this view carry in the coordinates of its root (all Subset windows on the way up,
+// through snapshots as well)
+func (v *vView) rootPrefix() []byte {
+	pre := []byte{}
+	for ; v != nil; v = v.parent {
+		if v.isSub {
+			pre = append(append([]byte{}, v.prefix...), pre...)
+		}
+	}
+	return pre
+}
+
 // vdbScanAgreesWithReads is the model-free, shadow-free half of "a view at X shows the state as of X" for ordered
 // scans: the scan of view v under prefix p must list exactly the keys that Get/Has OF THE SAME VIEW report present
 // (with the value Get returns), in key order. `universe` is only a set of candidate keys (every key the sequence
@@ -179,7 +191,7 @@ func vdbScanAgreesWithReads(c *Ctx, tag string, v *vView, p []byte, entries [][2
 			return false
 		}
 	}
-	pre := v.absPrefix()
+	pre := v.rootPrefix()
 	cands := make([]string, 0, len(universe))
 	for u := range universe {
 		if bytes.HasPrefix([]byte(u), pre) {
@@ -192,7 +204,7 @@ func vdbScanAgreesWithReads(c *Ctx, tag string, v *vView, p []byte, entries [][2
 		if !bytes.HasPrefix(k, p) || listed[string(k)] {
 			continue
 		}
-		if len(p) == 0 && !userKey(k) {
+		if !vdbVisible(pre, p, k) {
 			continue
 		}
 		has, _ := v.d.Has(k)
@@ -223,10 +235,11 @@ func entriesString(entries [][2][]byte) string {
 func vdbScanAgreesWithShadow(c *Ctx, tag string, v *vView, p []byte, entries [][2][]byte) bool {
 	keys := map[string]bool{}
 	v.keys(keys)
+	pre := v.rootPrefix()
 	var ks []string
 	for k := range keys {
 		if bytes.HasPrefix([]byte(k), p) {
-			if len(p) == 0 && !userKey([]byte(k)) {
+			if !vdbVisible(pre, p, []byte(k)) {
 				continue
 			}
 			if _, ok := v.lookup([]byte(k)); ok {
@@ -273,7 +286,7 @@ func vdbScanCoverage(c *Ctx, v *vView, p []byte, entries [][2][]byte, universe m
 			break
 		}
 	}
-	pre := v.absPrefix()
+	pre := v.rootPrefix()
 	for u := range universe {
 		if bytes.HasPrefix([]byte(u), pre) && bytes.HasPrefix([]byte(u)[len(pre):], p) {
 			if _, ok := v.lookup([]byte(u)[len(pre):]); !ok {
@@ -285,6 +298,120 @@ func vdbScanCoverage(c *Ctx, v *vView, p []byte, entries [][2][]byte, universe m
 }
 
 func userKey(k []byte) bool { return len(k) > 0 && k[0] >= 3 }
+
+// vdbVisible: is key k (in the coordinates of a view whose Subset windows add up to the prefix `pre`) an entry a scan
+// under prefix p is compared on? Only the scan of EVERYTHING (empty prefix) in the coordinates of a manager's root
+// shows the store's own bookkeeping entries (first byte 0, 1, 2): those are left out, on both sides of every
+// comparison. The empty key is an ordinary key; inside a Subset window every relative key is one.
+func vdbVisible(pre, p, k []byte) bool {
+	if len(pre) == 0 && len(p) == 0 {
+		return len(k) == 0 || k[0] >= 3
+	}
+	return true
+}
+
+// scanView: the ordered scan of view v under prefix p exactly as the store's iterator delivers it (minus the
+// bookkeeping entries, see vdbVisible)
+func scanView(v *vView, p []byte) (string, [][2][]byte, error) {
+	it := v.d.NewIterator(p)
+	defer it.Release()
+	pre := v.rootPrefix()
+	var out [][2][]byte
+	var sb strings.Builder
+	for it.Next() {
+		k := append([]byte{}, it.Key()...)
+		val := append([]byte{}, it.Value()...)
+		if !vdbVisible(pre, p, k) {
+			continue
+		}
+		out = append(out, [2][]byte{k, val})
+		if sb.Len() > 0 {
+			sb.WriteByte(',')
+		}
+		sb.WriteString(hx(k) + "=" + hx(val))
+	}
+	if sb.Len() == 0 {
+		sb.WriteString("empty")
+	}
+	return sb.String(), out, it.Error()
+}
+
+// emitScan prints a scan for the Lean model. `vdb-scanu` = the scan of everything in root coordinates with the
+// bookkeeping entries left out (the model applies the same filter); every other scan is printed in full.
+// The empty key / empty prefix / empty value are all printed as "-" (hex of a non-empty string is never "-").
+func emitScan(c *Ctx, v *vView, p []byte, got string) {
+	if len(v.rootPrefix()) == 0 && len(p) == 0 {
+		c.Emit("vdb-scanu %s %s | %s", v.name, hx(p), got)
+	} else {
+		c.Emit("vdb-scan %s %s | %s", v.name, hx(p), got)
+	}
+}
+
+// Key alphabets of the generators, by the coordinates the key is used in.
+// Root coordinates (first byte 0..2 belongs to the store's bookkeeping): the EMPTY key, single bytes incl. the internal
+// prefix bytes of the leveldb layout (frontierByte 0x55, patchByte 0x66, rollbackByte 0x77 and their neighbours) and
+// 0xff, 0xff runs, keys that extend those; else the dense small alphabet (3|4)·{00,01,03,04,ff}* whose members are
+// prefixes of one another.
+var vdbRootSingles = [][]byte{{3}, {4}, {0x54}, {0x55}, {0x56}, {0x66}, {0x77}, {0xff}, {0xff, 0xff}, {0x55, 0}, {0x55, 0x55}, {0x54, 0xff}, {0xff, 0}, {0x66, 0, 0, 0, 0, 0, 0, 0, 1}, {0x77, 0, 0, 0, 0, 0, 0, 0, 1}}
+
+// Relative coordinates inside a Subset(p) window: the EMPTY key (= the record stored under the bare prefix p), 0x00 and
+// 0xff runs, single bytes incl. 0, 1, 2, keys that are prefixes of one another.
+var vdbRelSingles = [][]byte{{0}, {0, 0}, {0, 0, 0}, {0xff}, {0xff, 0xff}, {1}, {2}, {0, 0xff}, {0xff, 0}, {0x55}, {3}, {4}}
+
+func vdbKeyAt(c *Ctx, pre []byte) []byte {
+	if len(pre) == 0 {
+		switch c.R.Intn(10) {
+		case 0:
+			return []byte{}
+		case 1:
+			return append([]byte{}, vdbRootSingles[c.R.Intn(len(vdbRootSingles))]...)
+		default:
+			return vdbKey(c)
+		}
+	}
+	switch c.R.Intn(10) {
+	case 0, 1:
+		return []byte{}
+	case 2, 3:
+		return append([]byte{}, vdbRelSingles[c.R.Intn(len(vdbRelSingles))]...)
+	case 4, 5:
+		return vdbKey(c)[1:] // tails over {00,01,03,04,ff}, length 0..3
+	default:
+		return vdbKey(c)
+	}
+}
+
+// vdbPrefixAt: scan / Subset prefixes: the empty prefix, a prefix equal to a key the sequence generated (prefix == key),
+// a proper prefix of such a key, else the random short prefixes.
+func vdbPrefixAt(c *Ctx, pre []byte, universe map[string]bool, allowEmpty bool) []byte {
+	r := c.R.Intn(10)
+	if r < 2 && allowEmpty {
+		return []byte{}
+	}
+	if r < 5 && len(universe) > 0 {
+		var cands []string
+		for u := range universe {
+			if bytes.HasPrefix([]byte(u), pre) && (allowEmpty || len(u) > len(pre)) {
+				cands = append(cands, u[len(pre):])
+			}
+		}
+		if len(cands) > 0 {
+			sort.Strings(cands)
+			k := []byte(cands[c.R.Intn(len(cands))])
+			if r == 4 && len(k) > 1 {
+				k = k[:1+c.R.Intn(len(k)-1)]
+			}
+			return k
+		}
+	}
+	if len(pre) > 0 && r < 8 {
+		k := vdbKeyAt(c, pre)
+		if len(k) > 0 || allowEmpty {
+			return k
+		}
+	}
+	return vdbPrefix(c)
+}
 
 var vdbKeyAlphabet = []byte{0, 1, 3, 4, 255}
 
@@ -411,6 +538,9 @@ func init() {
 			if seq%40 == 0 {
 				vdbDirectedScans(c, seq)
 			}
+			if seq%10 == 5 {
+				vdbDirectedPrefixKeys(c, seq)
+			}
 		}
 	})
 }
@@ -455,23 +585,36 @@ func vdbSequence(c *Ctx, seq int) {
 		return idStr(id)
 	}
 	universe := map[string]bool{} // every key this sequence generated (candidate keys for the scan monitor)
-	vdbKey := func(c *Ctx) []byte {
-		k := vdbKey(c)
-		universe[string(k)] = true
+	// keyFor: a key in the coordinates of view v (nil = the coordinates of the manager's root: commits), recorded in
+	// the universe in root coordinates
+	keyFor := func(v *vView) []byte {
+		pre := []byte{}
+		if v != nil {
+			pre = v.rootPrefix()
+		}
+		k := vdbKeyAt(c, pre)
+		universe[string(pre)+string(k)] = true
+		if len(k) == 0 {
+			c.Hit("key-empty")
+			if len(pre) > 0 {
+				c.Hit("key-empty-in-subset")
+			}
+		}
 		return k
 	}
-	genOps := func() []kvOp {
+	genOpsFor := func(v *vView) []kvOp {
 		n := c.R.Intn(5)
 		ops := make([]kvOp, 0, n)
 		for i := 0; i < n; i++ {
 			if c.R.Intn(4) == 0 {
-				ops = append(ops, kvOp{del: true, k: vdbKey(c)})
+				ops = append(ops, kvOp{del: true, k: keyFor(v)})
 			} else {
-				ops = append(ops, kvOp{k: vdbKey(c), v: vdbVal(c)})
+				ops = append(ops, kvOp{k: keyFor(v), v: vdbVal(c)})
 			}
 		}
 		return ops
 	}
+	genOps := func() []kvOp { return genOpsFor(nil) }
 	mkPatch := func(ops []kvOp) db.Patch {
 		p := db.NewPatch()
 		for _, o := range ops {
@@ -493,9 +636,6 @@ func vdbSequence(c *Ctx, seq int) {
 		}
 		sort.Strings(ks)
 		for _, k := range ks {
-			if !userKey([]byte(k)) && !v.isSub {
-				continue
-			}
 			val, ok := v.lookup([]byte(k))
 			got, gerr := v.d.Get([]byte(k))
 			has, _ := v.d.Has([]byte(k))
@@ -514,7 +654,7 @@ func vdbSequence(c *Ctx, seq int) {
 		}
 		// ordered scan of everything: against the view's own Get/Has (every known key was just read above and
 		// agreed with the state as of the commit), then against that state
-		_, entries, _ := scanDB(v.d, nil)
+		_, entries, _ := scanView(v, nil)
 		tag := fmt.Sprintf("vdb seq=%d %s", seq, what)
 		if !vdbScanAgreesWithReads(c, tag, v, nil, entries, universe) {
 			return
@@ -575,7 +715,7 @@ func vdbSequence(c *Ctx, seq int) {
 			id := types.HashHeight{Height: prev.Height + 1, Hash: newHash()}
 			ops := genOps()
 			if len(ops) == 0 {
-				ops = []kvOp{{k: vdbKey(c), v: []byte{9}}}
+				ops = []kvOp{{k: keyFor(nil), v: []byte{9}}}
 			}
 			var aerr error
 			p := safely(func() {
@@ -705,7 +845,7 @@ func vdbSequence(c *Ctx, seq int) {
 			q := c.R.Intn(100)
 			switch {
 			case q < 25: // get
-				k := vdbKey(c)
+				k := keyFor(v)
 				got, gerr := v.d.Get(k)
 				res := "notfound"
 				if gerr == nil {
@@ -720,7 +860,7 @@ func vdbSequence(c *Ctx, seq int) {
 				}
 				c.Hit("get-" + res[:3])
 			case q < 35: // has
-				k := vdbKey(c)
+				k := keyFor(v)
 				has, _ := v.d.Has(k)
 				c.Emit("vdb-has %s %s | %v", v.name, hx(k), has)
 				_, ok := v.lookup(k)
@@ -729,9 +869,21 @@ func vdbSequence(c *Ctx, seq int) {
 				}
 				c.Hit("has")
 			case q < 50: // scan
-				p := vdbPrefix(c)
-				got, entries, _ := scanDB(v.d, p)
-				c.Emit("vdb-scan %s %s | %s", v.name, hx(p), got)
+				p := vdbPrefixAt(c, v.rootPrefix(), universe, true)
+				got, entries, _ := scanView(v, p)
+				emitScan(c, v, p, got)
+				if len(p) == 0 {
+					c.Hit("scan-empty-prefix")
+				}
+				if _, ok := universe[string(v.rootPrefix())+string(p)]; ok {
+					c.Hit("scan-prefix-is-a-key")
+				}
+				if len(entries) > 0 && len(entries[0][0]) == 0 {
+					c.Hit("scan-lists-empty-key")
+					if !v.isSub && (v.parent != nil || v.hist) {
+						c.Hit("scan-layered-view-lists-empty-key")
+					}
+				}
 				tag := fmt.Sprintf("vdb seq=%d", seq)
 				if vdbScanAgreesWithReads(c, tag, v, p, entries, universe) {
 					vdbScanAgreesWithShadow(c, tag, v, p, entries)
@@ -742,13 +894,13 @@ func vdbSequence(c *Ctx, seq int) {
 					c.Hit("scan-multi")
 				}
 			case q < 65: // put
-				k, val := vdbKey(c), vdbVal(c)
+				k, val := keyFor(v), vdbVal(c)
 				err := v.d.Put(k, val)
 				c.Emit("vdb-put %s %s %s | %v", v.name, hx(k), hx(val), err == nil)
 				v.write(k, val, false)
 				c.Hit("put")
 			case q < 72: // delete
-				k := vdbKey(c)
+				k := keyFor(v)
 				err := v.d.Delete(k)
 				c.Emit("vdb-del %s %s | %v", v.name, hx(k), err == nil)
 				v.write(k, nil, true)
@@ -761,7 +913,7 @@ func vdbSequence(c *Ctx, seq int) {
 				c.Hit("snapshot")
 			case q < 86: // subset
 				name := fmt.Sprintf("v%d", len(views))
-				p := vdbPrefix(c)
+				p := vdbPrefixAt(c, v.rootPrefix(), universe, c.R.Intn(3) == 0)
 				d := v.d.Subset(p)
 				c.Emit("vdb-subset %s %s %s | ok", v.name, name, hx(p))
 				views = append(views, &vView{name: name, d: d, parent: v, isSub: true, prefix: p, version: v.version + "+sub"})
@@ -811,7 +963,7 @@ func vdbSequence(c *Ctx, seq int) {
 					}
 				}
 			default: // apply a patch through the view
-				ops := genOps()
+				ops := genOpsFor(v)
 				err := v.d.Apply(mkPatch(ops))
 				c.Emit("vdb-apply %s %s | %v", v.name, opsString(ops, false), err == nil)
 				for _, o := range ops {
@@ -1070,7 +1222,7 @@ func vdbDirectedScans(c *Ctx, seq int) {
 	// reads every candidate key and scans the prefixes through the view; false = a monitor failed
 	exercise := func(v *vView, what string) bool {
 		tag := fmt.Sprintf("vdb directed seq=%d %s", seq, what)
-		pre := v.absPrefix()
+		pre := v.rootPrefix()
 		var ks []string
 		for u := range universe {
 			if bytes.HasPrefix([]byte(u), pre) {
@@ -1344,5 +1496,419 @@ func vdbTwoWriters(c *Ctx, seq int) {
 		if _, e := v.Get([]byte{3, 0xb}); e == nil {
 			c.Fail("vdb writers seq=%d: view at the parent shows the key written by a later commit", seq)
 		}
+	}
+}
+
+// ---------------------------------------------------------------------------------------------------
+// vdbDirectedPrefixKeys: the family of keys around one prefix p — the record stored under the bare prefix (the EMPTY
+// key of Subset(p); for p = "" the empty key of the store itself), p·00, p·00·00, p·ff, p·ff·ff, p·01 and the keys next
+// to p on both sides — present / absent at commit X, then overwritten / deleted / created / re-created / kept at X+1
+// (and by a third commit), and again through the upper layer of every kind of layered view:
+//   the view at X below the frontier (rollback overlay over the frontier), the frontier,
+//   Subset(p) of each, Subset(p).Snapshot() with the empty key overwritten / deleted / created / deleted-and-re-created
+//   in the snapshot, Snapshot() with p written the same way and Subset(p) of that, a snapshot of the snapshot;
+//   the same after popping back to X.
+// Every view is read on every candidate key and scanned under the empty prefix, under p (prefix == key), under the
+// members of the family and, inside the windows, under "", 00, 00·00, ff. Each scan is emitted for the Lean model and
+// checked by the two scan monitors (against Get/Has of the same view incl. strict key order; against the state as of the commit).
+// ---------------------------------------------------------------------------------------------------
+
+type vdbRig struct {
+	c        *Ctx
+	seq      int
+	what     string
+	m        db.Manager
+	chain    []types.HashHeight
+	specs    map[string]shadow
+	universe map[string]bool
+	counter  uint64
+	nviews   int
+	vprefix  string
+}
+
+func (r *vdbRig) verKey() string {
+	if len(r.chain) == 0 {
+		return "0:"
+	}
+	return idStr(r.chain[len(r.chain)-1])
+}
+
+func (r *vdbRig) commit(ops []kvOp) bool {
+	c := r.c
+	for _, o := range ops {
+		r.universe[string(o.k)] = true
+	}
+	prev := types.ZeroHashHeight
+	if len(r.chain) > 0 {
+		prev = r.chain[len(r.chain)-1]
+	}
+	pk := r.verKey()
+	r.counter++
+	var h types.Hash
+	binary.BigEndian.PutUint64(h[:8], r.counter)
+	h[31] = 1
+	id := types.HashHeight{Height: prev.Height + 1, Hash: h}
+	p := db.NewPatch()
+	for _, o := range ops {
+		if o.del {
+			p.Delete(o.k)
+		} else {
+			p.Put(o.k, o.v)
+		}
+	}
+	var aerr error
+	if pn := safely(func() { aerr = r.m.Add(&vTx{commits: []db.Commit{&vCommit{id: id, prev: prev}}, patch: p}) }); pn != "" || aerr != nil {
+		c.Emit("vdb-add %s %s %s | err", pk, idStr(id), opsString(ops, false))
+		c.Fail("%s seq=%d: commit [%s] on the frontier %s refused: %v %s", r.what, r.seq, opsString(ops, false), pk, aerr, pn)
+		return false
+	}
+	c.Emit("vdb-add %s %s %s | ok", pk, idStr(id), opsString(ops, false))
+	ns := r.specs[pk].clone()
+	for _, o := range ops {
+		if o.del {
+			delete(ns, string(o.k))
+		} else {
+			ns[string(o.k)] = o.v
+		}
+	}
+	r.specs[idStr(id)] = ns
+	r.chain = append(r.chain, id)
+	return true
+}
+
+func (r *vdbRig) pop() bool {
+	var perr error
+	if pn := safely(func() { perr = r.m.Pop() }); pn != "" || perr != nil {
+		r.c.Emit("vdb-pop | err")
+		r.c.Fail("%s seq=%d: pop of the frontier %s failed: %v %s", r.what, r.seq, r.verKey(), perr, pn)
+		return false
+	}
+	r.c.Emit("vdb-pop | ok")
+	r.chain = r.chain[:len(r.chain)-1]
+	return true
+}
+
+func (r *vdbRig) newName() string {
+	r.nviews++
+	return fmt.Sprintf("%s%d", r.vprefix, r.nviews-1)
+}
+
+func (r *vdbRig) open(id types.HashHeight) *vView {
+	name := r.newName()
+	var d db.DB
+	safely(func() { d = r.m.Get(id) })
+	if d == nil {
+		r.c.Emit("vdb-view %s %s | nil", name, idStr(id))
+		r.c.Fail("%s seq=%d: view at %s (on the current chain) could not be opened", r.what, r.seq, idStr(id))
+		return nil
+	}
+	r.c.Emit("vdb-view %s %s | ok", name, idStr(id))
+	return &vView{name: name, d: d, base: r.specs[idStr(id)].clone(), writes: map[string][]byte{}, version: idStr(id), hist: id != r.chain[len(r.chain)-1]}
+}
+
+func (r *vdbRig) snapshot(v *vView) *vView {
+	name := r.newName()
+	d := v.d.Snapshot()
+	r.c.Emit("vdb-snap %s %s | ok", v.name, name)
+	return &vView{name: name, d: d, parent: v, writes: map[string][]byte{}, version: v.version + "+snap"}
+}
+
+func (r *vdbRig) subset(v *vView, p []byte) *vView {
+	name := r.newName()
+	d := v.d.Subset(p)
+	r.c.Emit("vdb-subset %s %s %s | ok", v.name, name, hx(p))
+	return &vView{name: name, d: d, parent: v, isSub: true, prefix: append([]byte{}, p...), version: v.version + "+sub"}
+}
+
+func (r *vdbRig) write(v *vView, o kvOp) {
+	r.universe[string(v.rootPrefix())+string(o.k)] = true
+	if o.del {
+		e := v.d.Delete(o.k)
+		r.c.Emit("vdb-del %s %s | %v", v.name, hx(o.k), e == nil)
+	} else {
+		e := v.d.Put(o.k, o.v)
+		r.c.Emit("vdb-put %s %s %s | %v", v.name, hx(o.k), hx(o.v), e == nil)
+	}
+	v.write(o.k, o.v, o.del)
+}
+
+// exercise: Get + Has of every candidate key of the view, then the scans; false = a monitor failed
+func (r *vdbRig) exercise(v *vView, what string, prefixes [][]byte) bool {
+	c := r.c
+	tag := fmt.Sprintf("%s seq=%d %s", r.what, r.seq, what)
+	pre := v.rootPrefix()
+	var ks []string
+	for u := range r.universe {
+		if bytes.HasPrefix([]byte(u), pre) {
+			ks = append(ks, u[len(pre):])
+		}
+	}
+	sort.Strings(ks)
+	for _, ku := range ks {
+		k := []byte(ku)
+		got, gerr := v.d.Get(k)
+		has, _ := v.d.Has(k)
+		res := "notfound"
+		if gerr == nil {
+			res = "val:" + hx(got)
+		} else if gerr != leveldb.ErrNotFound {
+			res = "error"
+		}
+		c.Emit("vdb-get %s %s | %s", v.name, hx(k), res)
+		c.Emit("vdb-has %s %s | %v", v.name, hx(k), has)
+		want, ok := v.lookup(k)
+		if ok != (gerr == nil) || ok != has || (ok && !bytes.Equal(want, got)) {
+			c.Fail("%s: view %s@%s key %s: store says (%s, has=%v), state as of that commit (plus own writes): present=%v value=%s", tag, v.name, v.version, hx(k), res, has, ok, hx(want))
+			return false
+		}
+	}
+	seen := map[string]bool{}
+	for _, p := range prefixes {
+		if seen[string(p)] {
+			continue
+		}
+		seen[string(p)] = true
+		got, entries, _ := scanView(v, p)
+		emitScan(c, v, p, got)
+		if !vdbScanAgreesWithReads(c, tag, v, p, entries, r.universe) || !vdbScanAgreesWithShadow(c, tag, v, p, entries) {
+			return false
+		}
+		vdbScanCoverage(c, v, p, entries, r.universe)
+		if len(entries) > 0 && len(entries[0][0]) == 0 {
+			c.Hit("scan-lists-empty-key")
+			if !v.isSub && (v.parent != nil || v.hist) {
+				c.Hit("scan-layered-view-lists-empty-key")
+			}
+		}
+		if len(p) == 0 {
+			c.Hit("scan-empty-prefix")
+		}
+	}
+	return true
+}
+
+func vdbDirectedPrefixKeys(c *Ctx, seq int) {
+	dir, err := os.MkdirTemp("", "zvdb")
+	if err != nil {
+		panic(err)
+	}
+	defer os.RemoveAll(dir)
+	m := db.NewLevelDBManager(dir)
+	defer func() { safely(func() { m.Stop() }) }()
+	c.Emit("vdb-reset")
+	r := &vdbRig{c: c, seq: seq, what: "vdb prefix-keys", m: m, specs: map[string]shadow{"0:": {}}, universe: map[string]bool{},
+		counter: uint64(seq)<<32 | 1<<28, vprefix: "k"}
+
+	// the prefix p, in root coordinates
+	var p []byte
+	switch c.R.Intn(8) {
+	case 0, 1:
+		p = []byte{} // the store's own empty key
+	case 2:
+		p = []byte{byte(3 + c.R.Intn(2))}
+	case 3:
+		p = append([]byte{}, vdbRootSingles[c.R.Intn(len(vdbRootSingles))]...)
+	case 4:
+		p = []byte{byte(3 + c.R.Intn(2)), []byte{0, 0xff}[c.R.Intn(2)]}
+	default:
+		p = vdbKey(c)
+	}
+	join := func(a []byte, b ...byte) []byte { return append(append([]byte{}, a...), b...) }
+	family := [][]byte{p, join(p, 0), join(p, 0, 0), join(p, 0xff), join(p, 0xff, 0xff), join(p, 1), join(p, 0, 0xff), join(p, byte(3+c.R.Intn(2)))}
+	if len(p) > 0 {
+		last := p[len(p)-1]
+		if last > 0 && (len(p) > 1 || last > 3) {
+			family = append(family, join(p[:len(p)-1], last-1), join(p[:len(p)-1], last-1, 0xff)) // just below p
+		}
+		if last < 0xff {
+			family = append(family, join(p[:len(p)-1], last+1)) // just above everything under p
+		}
+		if len(p) > 1 {
+			family = append(family, join(p[:len(p)-1])) // the parent prefix
+		}
+	}
+	if len(p) == 0 {
+		family = append(family, []byte{3}, []byte{3, 0}, []byte{0x55}, []byte{0xff, 0})
+	}
+	rootOK := func(k []byte) bool { return len(k) == 0 || k[0] >= 3 }
+	{
+		f := family[:0]
+		seen := map[string]bool{}
+		for _, k := range family {
+			if rootOK(k) && !seen[string(k)] {
+				seen[string(k)] = true
+				f = append(f, k)
+			}
+		}
+		family = f
+	}
+	for _, k := range family {
+		r.universe[string(k)] = true
+	}
+	nonEmpty := func() []byte { return append(vdbVal(c), byte(1+c.R.Intn(3))) }
+	val := func() []byte {
+		if c.R.Intn(5) == 0 {
+			return []byte{}
+		}
+		return nonEmpty()
+	}
+	// commit X: p present (3 of 4 runs), the others present with probability 2/3
+	var ops []kvOp
+	pAtX := c.R.Intn(4) != 0
+	for i, k := range family {
+		if (i == 0 && pAtX) || (i > 0 && c.R.Intn(3) != 0) {
+			ops = append(ops, kvOp{k: k, v: val()})
+		}
+	}
+	if len(ops) == 0 {
+		ops = append(ops, kvOp{k: family[len(family)-1], v: nonEmpty()})
+	}
+	if !r.commit(ops) {
+		return
+	}
+	x := r.chain[0]
+	// commit X+1: p overwritten / deleted / created / kept; the others at random
+	ops = nil
+	switch c.R.Intn(4) {
+	case 0, 1:
+		ops = append(ops, kvOp{k: p, v: nonEmpty()}) // overwrite, or create when absent at X
+	case 2:
+		ops = append(ops, kvOp{del: true, k: p})
+	}
+	for _, k := range family[1:] {
+		switch c.R.Intn(4) {
+		case 0:
+			ops = append(ops, kvOp{k: k, v: val()})
+		case 1:
+			ops = append(ops, kvOp{del: true, k: k})
+		}
+	}
+	if !r.commit(ops) {
+		return
+	}
+	// sometimes a third commit that re-creates / deletes p again
+	if c.R.Intn(2) == 0 {
+		ops = nil
+		if c.R.Intn(2) == 0 {
+			ops = append(ops, kvOp{k: p, v: val()})
+		} else {
+			ops = append(ops, kvOp{del: true, k: p})
+		}
+		ops = append(ops, kvOp{k: family[c.R.Intn(len(family))], v: val()})
+		if !r.commit(ops) {
+			return
+		}
+	}
+
+	rootPrefixes := [][]byte{{}, p, join(p, 0), join(p, 0xff), join(p, 0, 0)}
+	if len(p) > 1 {
+		rootPrefixes = append(rootPrefixes, p[:len(p)-1])
+	}
+	if len(p) == 0 {
+		rootPrefixes = append(rootPrefixes, []byte{3}, []byte{0xff})
+	}
+	{
+		f := rootPrefixes[:0]
+		for _, k := range rootPrefixes {
+			if rootOK(k) {
+				f = append(f, k)
+			}
+		}
+		rootPrefixes = f
+	}
+	relPrefixes := [][]byte{{}, {0}, {0, 0}, {0xff}, {0xff, 0xff}, {1}}
+	relSingles := vdbRelSingles
+	if len(p) == 0 {
+		// Subset("") is the identity window: its coordinates are the root's, where 0..2 lead the bookkeeping entries
+		relPrefixes, relSingles = rootPrefixes, vdbRootSingles
+	}
+	// the modes in which the bare-prefix record is written through the upper layer of a layered view
+	writeMode := func(v *vView, k []byte, mode int) {
+		switch mode {
+		case 0: // overwrite (or create)
+			r.write(v, kvOp{k: k, v: nonEmpty()})
+		case 1: // delete
+			r.write(v, kvOp{del: true, k: k})
+		case 2: // delete, then re-create
+			r.write(v, kvOp{del: true, k: k})
+			r.write(v, kvOp{k: k, v: val()})
+		case 3: // the empty value
+			r.write(v, kvOp{k: k, v: []byte{}})
+		default: // not written in this layer; a sibling is
+		}
+	}
+	layered := func(base *vView, what string) bool {
+		if !r.exercise(base, what, rootPrefixes) {
+			return false
+		}
+		// the window onto p
+		sub := r.subset(base, p)
+		if !r.exercise(sub, what+", Subset(p)", relPrefixes) {
+			return false
+		}
+		// Subset(p).Snapshot(): the empty key in the snapshot's own layer
+		ss := r.snapshot(sub)
+		writeMode(ss, []byte{}, c.R.Intn(5))
+		if c.R.Intn(2) == 0 {
+			r.write(ss, kvOp{k: relSingles[c.R.Intn(len(relSingles))], v: val()})
+		}
+		if !r.exercise(ss, what+", Subset(p).Snapshot() with own writes", relPrefixes) {
+			return false
+		}
+		// a snapshot of that snapshot, the empty key written once more (three layers)
+		s3 := r.snapshot(ss)
+		writeMode(s3, []byte{}, c.R.Intn(5))
+		if !r.exercise(s3, what+", Subset(p).Snapshot().Snapshot() with own writes", relPrefixes) {
+			return false
+		}
+		// Snapshot() with p written through it, and the window onto p of that
+		sn := r.snapshot(base)
+		writeMode(sn, p, c.R.Intn(5))
+		if c.R.Intn(2) == 0 {
+			r.write(sn, kvOp{del: c.R.Intn(2) == 0, k: family[c.R.Intn(len(family))], v: val()})
+		}
+		if !r.exercise(sn, what+", Snapshot() with own writes", rootPrefixes) {
+			return false
+		}
+		sns := r.subset(sn, p)
+		if !r.exercise(sns, what+", Snapshot().Subset(p)", relPrefixes) {
+			return false
+		}
+		// the earlier views are not disturbed by the writes of their descendants
+		return r.exercise(sub, what+", Subset(p) after writes through its snapshots", relPrefixes[:2])
+	}
+
+	vx := r.open(x)
+	if vx == nil || !layered(vx, "view below the frontier") {
+		return
+	}
+	vf := r.open(r.chain[len(r.chain)-1])
+	if vf == nil || !layered(vf, "view at the frontier") {
+		return
+	}
+	// pop back to X; the frontier's raw key space now holds deleted entries for what was created after X
+	for len(r.chain) > 1 {
+		if !r.pop() {
+			return
+		}
+	}
+	vp := r.open(x)
+	if vp == nil || !layered(vp, "frontier after rolling back to it") {
+		return
+	}
+	if !r.exercise(vx, "view opened below the frontier, after the rollback made it the frontier", rootPrefixes) {
+		return
+	}
+	// a new commit on top that changes p again; X from below the new frontier
+	if !r.commit([]kvOp{{k: p, v: nonEmpty()}, {k: family[c.R.Intn(len(family))], v: val()}}) {
+		return
+	}
+	vy := r.open(x)
+	if vy == nil || !layered(vy, "view below the new frontier") {
+		return
+	}
+	c.Hit("directed-prefix-keys-scenario")
+	if len(p) == 0 {
+		c.Hit("directed-prefix-keys-scenario-empty-root-key")
 	}
 }
